@@ -457,13 +457,14 @@ def _reduce(eng, f, seq, *init):
         for x in items[1:]:
             acc = eng.call(f, [acc, x])
         return acc
-    if isinstance(f, Builtin) and f.name == "mul" and not s.items and isinstance(s.tail, SVec) and not init:
+    if isinstance(f, Builtin) and f.name == "mul" and not s.items and isinstance(s.tail, SVec) and (not init or (len(init) == 1 and isinstance(init[0], int))):
         # product of a symbolic-length integer vector: uninterpreted (only its relative
         # size steers the order of two requests, never a value)
-        if not eng.valid(s.tail.n >= 1):
+        if not init and not eng.valid(s.tail.n >= 1):
             if eng.branch(s.tail.n < 1):
                 raise PyRaise(SExc("TypeError", ("reduce() of empty iterable with no initial value",)))
-        return wrap_int(_vprod(s.tail.arr, s.tail.n))
+        p = _vprod(s.tail.arr, s.tail.n)
+        return wrap_int(p if not init or init[0] == 1 else init[0] * p)
     raise Unsupported("reduce over symbolic-length sequence")
 
 
